@@ -113,6 +113,13 @@ def special_document(rng, kind):
             "info": {"title": "t", "version": "1"},
             "paths": {"/op/{p}": {"get": {"parameters": params, "responses": ok}}},
         }, "cases"
+    if kind == "nullable_exclusive_body":
+        # (known finding: the only mutation of this body is `not: {anyOf: [...]}`, which the dependency cannot generate from)
+        return {
+            "openapi": "3.0.2",
+            "info": {"title": "t", "version": "1"},
+            "paths": {"/op": {"post": {"requestBody": {"required": True, "content": {"application/json": {"schema": {"type": "number", "maximum": 0, "exclusiveMaximum": True, "nullable": True}}}}, "responses": ok}}},
+        }, "cases"
     if kind == "nullable_text_locations":
         # nullable parameters become anyOf[typed, null]: the text form of a value must be read against both branches
         return {
@@ -195,7 +202,7 @@ def special_document(rng, kind):
     raise AssertionError(kind)
 
 
-SPECIALS = ["no_inputs", "empty_body_schema", "string_header_only", "string_path_only", "string_path_plus_int_query", "additional_only_object", "optional_body_only", "string_cookies_only", "string_cookies_plus_int_query", "string_headers_plus_int_query", "typelist_31_strings", "typelist_31_mixed", "nullable_text_locations"]
+SPECIALS = ["no_inputs", "empty_body_schema", "string_header_only", "string_path_only", "string_path_plus_int_query", "additional_only_object", "optional_body_only", "string_cookies_only", "string_cookies_plus_int_query", "string_headers_plus_int_query", "typelist_31_strings", "typelist_31_mixed", "nullable_text_locations", "nullable_exclusive_body"]
 
 
 def wire_level_validity(doc, version, location, declared_here, value):
